@@ -20,7 +20,7 @@ Understood (v, w locals or parameters; e expressions):
 Normalisation (each one is semantics-preserving in Python for the shapes accepted):
   * variables are numbered by first occurrence, parameters first: renamings are invisible; loop variables are not
     part of the description (they must never be read);
-  * docstrings, comments, `pass`, logger calls are ignored;
+  * docstrings, comments, `pass`, logger calls are ignored; a nested `def f(): return e` read once is `lambda: e` there;
   * `v += [e]` = `v.append(e)` for a variable bound only by an empty-list literal;
   * `v = []` directly followed by `for _ in range(k): v.append(e)` (one statement, e does not read v) is the
     comprehension `v = [e for _ in range(k)]`;
@@ -32,7 +32,7 @@ index, another comparison, another draw count, `np.random.choice(fitness, k)` as
 sentinel.
 """
 import ast
-from .common import TranslationError, parse, find_func, body_wo_doc, is_logger_call, src_of, HEADER
+from .common import TranslationError, parse, find_func, body_wo_doc, is_logger_call, src_of, HEADER, inline_local_defs
 
 R_GEN = 'opytimizer/math/general.py'
 BUILTINS = ('min', 'max', 'iter', 'tuple', 'range', 'int', 'list')
@@ -339,6 +339,7 @@ class _Fn:
 
 def fn_descr(repo, fname, params):
     tree, src = parse(repo, R_GEN)
+    inline_local_defs(tree)            # a nested one-expression def read once is the lambda written at that place
     mod = _Module(tree)
     fn = find_func(tree, fname)
     if fn is None:
